@@ -277,3 +277,14 @@ def r10_3_units(ctx: Ctx) -> RuleResult:
     from ..dims import units_rule
 
     return units_rule(ctx, "R10.3", "C10", 60)
+
+
+@rule("C10")
+def r10_7_period_application_order(ctx: Ctx) -> RuleResult:
+    from .c09 import r09_4_unit_order
+
+    r = r09_4_unit_order(ctx)
+    r.rule = "R10.7"
+    for f in r.findings:
+        f.rule = "R10.7"
+    return r
